@@ -27,7 +27,7 @@ from vlib.loader import LoaderError
 
 PROP = "C09"
 META = {
-    "ready": False,
+    "ready": True,
     "level": "model_checking",
     "technique": "TLA+ model of relative-relocation emission (RELA/RELR) and of the loader, exhaustively checked by TLC; its enumerated scenarios replayed into the real linker and the observed relocation tables / images validated by TLC against the same operators; native execution under ASLR",
     "level_text": "Every set of up to 3 pointer fields over 10 offsets (even, odd, adjacent, 63-word window boundary) x section start parity x RELR on/off is explored by TLC for the address-parity rule and for bitmap packing (Exactly1, RelrEven, ImageShift at 3 bases, incl. one above 2^46); the offset-parity variant is shown to fail. Each sampled (quick) or every (thorough) scenario is linked by the real wild as PIE, shared object and static PIE and the observation is judged by TLC; PIE/shared/libc-static-PIE outputs are executed under ASLR.",
